@@ -27,8 +27,9 @@
 //!        I<id>:<prev>:<next>:<right>:<left>[@<p1+p2…>],…       interior; every cell (= divider) with its left child
 //!        O<id>:<next>                                           overflow-shaped page (chain link or free page)
 //!        B<id>                                                  unreadable / malformed
-//!      R lists the roots that count: meta table, meta index, and every physical catalog row that is not deleted by a
-//!      transaction that was not rolled back.
+//!      R lists the roots that count: meta table, meta index, and every physical catalog row that owns a tree (see
+//!      `Observer::step`); a root is followed by `c` if the row's creator was rolled back and by `d` if its deleter was.
+//!      X=<n> (only when n > 0): number of dividers that carry an overflow pointer.
 //!    The judge runs `checkOwnership` on every step and the reuse-before-growth rule on consecutive steps.
 use super::{Case, Engine, Tier};
 use crate::rng::Rng;
@@ -469,9 +470,21 @@ impl Observer {
             Ok(r) => r,
             Err(e) => return format!("D=Ecatalog:{}", e.split(':').next().unwrap_or("?")),
         };
-        let counted: Vec<u64> =
-            roots.iter().filter(|r| !(r.xmax.is_some() && !r.xmax_aborted)).map(|r| r.root).collect();
-        let rk: Vec<(u64, KeyKind)> = counted.iter().map(|r| (*r, KeyKind::U64)).collect();
+        // Which catalog rows own a tree (physical rows of the meta table, whatever their visibility):
+        //   no deleter                      -> yes (mark `c` if the creator was rolled back: garbage that VACUUM must free)
+        //   deleter, creator rolled back    -> no  (invisible garbage whose tree a DROP has freed)
+        //   deleter rolled back             -> yes, mark `d` (a visible relation; its DROP freed the pages all the same)
+        //   deleter committed / in progress -> no  (the DROP freed the pages)
+        let mut counted: Vec<(u64, &'static str)> = Vec::new();
+        for r in &roots {
+            match r.xmax {
+                None => counted.push((r.root, if r.xmin_aborted { "c" } else { "" })),
+                Some(_) if r.xmin_aborted => {}
+                Some(_) if r.xmax_aborted => counted.push((r.root, "d")),
+                Some(_) => {}
+            }
+        }
+        let rk: Vec<(u64, KeyKind)> = counted.iter().map(|r| (r.0, KeyKind::U64)).collect();
         let mut cache = self.cache.take();
         let pager = db.pager().clone();
         let d = match guard(|| Ok(dump_file_cached(&pager, &rk, &mut cache))) {
@@ -485,8 +498,20 @@ impl Observer {
             d.total_pages,
             id0(d.first_free),
             id0(d.last_free),
-            counted.iter().map(|x| x.to_string()).collect::<Vec<_>>().join(",")
+            counted.iter().map(|x| format!("{}{}", x.0, x.1)).collect::<Vec<_>>().join(",")
         );
+        // dividers (cells of interior pages) that carry an overflow pointer: the precondition of KF-C11-divider-damage
+        let ndiv: usize = d
+            .pages
+            .iter()
+            .map(|p| match &p.body {
+                PageBody::Btree(b) if b.right_child.is_some() => b.cells.iter().filter(|c| c.is_overflow).count(),
+                _ => 0,
+            })
+            .sum();
+        if ndiv > 0 {
+            s.push_str(&format!(" X={}", ndiv));
+        }
         for (id, tok) in &toks {
             if self.prev.get(id) != Some(tok) {
                 s.push(' ');
@@ -983,7 +1008,7 @@ fn gen_sql(rng: &mut Rng, n_ops: usize, plan: &Plan) -> (String, Vec<String>) {
 
 impl Engine for PagerEngine {
     fn timeout_ms(&self) -> u64 {
-        60_000
+        20_000
     }
 
     fn exec(&mut self, line: &str) -> String {
